@@ -4,8 +4,10 @@ import (
 	"fmt"
 	"strings"
 
+	"github.com/antlr4-go/antlr/v4"
 	"github.com/formancehq/numscript"
 	"github.com/formancehq/numscript/internal/parser"
+	antlrParser "github.com/formancehq/numscript/internal/parser/antlr"
 )
 
 func coqCodePoints(text string) string {
@@ -270,6 +272,109 @@ func init() {
 					ci.Known = k
 				}
 				c.add(ci)
+			}
+		}
+	}
+}
+
+// ---- token level: the generated ANTLR lexer run alone ----
+
+type lexErrCollector struct {
+	*antlr.DefaultErrorListener
+	errs [][2]int
+}
+
+func (l *lexErrCollector) SyntaxError(recognizer antlr.Recognizer, offendingSymbol interface{}, line, column int, msg string, e antlr.RecognitionException) {
+	l.errs = append(l.errs, [2]int{line - 1, column})
+}
+
+func coqCps(s string) string {
+	var xs []string
+	for _, r := range []rune(s) {
+		xs = append(xs, fmt.Sprint(int(r)))
+	}
+	return coqList(xs)
+}
+
+func (c *Ctx) tokenCase(text string, origin string) {
+	lexer := antlrParser.NewNumscriptLexer(antlr.NewInputStream(text))
+	lexer.RemoveErrorListeners()
+	col := &lexErrCollector{}
+	lexer.AddErrorListener(col)
+	var toks []string
+	n := 0
+	for {
+		tk := lexer.NextToken()
+		if tk.GetTokenType() == antlr.TokenEOF {
+			break
+		}
+		name := ""
+		if tt := tk.GetTokenType(); tt >= 0 && tt < len(lexer.SymbolicNames) {
+			name = lexer.SymbolicNames[tt]
+		}
+		if name == "" {
+			name = "PLUS" // the only implicit literal token of the grammar
+		}
+		toks = append(toks, fmt.Sprintf("(%s, %s, %d, %d)", coqStr(name), coqCps(tk.GetText()), tk.GetLine()-1, tk.GetColumn()))
+		n++
+	}
+	var errs []string
+	for _, e := range col.errs {
+		errs = append(errs, fmt.Sprintf("(%d, %d)", e[0], e[1]))
+	}
+	ci := &CaseInfo{Kind: "tokcase", Text: text, FailAt: -1, Extra: map[string]any{"origin": origin}}
+	ci.Class = "tokens"
+	if len(errs) > 0 {
+		ci.Class = "lexical-errors"
+	}
+	ci.Observed = fmt.Sprintf("%d tokens, %d lexical errors", n, len(errs))
+	ci.Coq = fmt.Sprintf("(mk_tokcase %s %s %s)", coqCodePoints(text), coqList(toks), coqList(errs))
+	c.add(ci)
+	c.count("tokens:" + origin)
+}
+
+// lexerStress: short strings over the characters the lexer rules discriminate on
+func lexerStress(r *Rand) string {
+	alphabet := []string{"/", "*", "/*", "*/", "//", "\"", "\\", "\\\"", "\n", "\r", " ", "\t", "0", "1", "9", "%", ".", "/ ", " /", "@", ":", "$", "_", "-", "+", "a", "z", "A", "Z", "é", "{", "max", "to", "tokept", "USD", "USD/2", "1/2", "50%", "1.5%", "@a:b", "$x1", "#"}
+	n := 1 + r.Intn(10)
+	var sb strings.Builder
+	for i := 0; i < n; i++ {
+		sb.WriteString(r.Pick(alphabet))
+	}
+	return sb.String()
+}
+
+func init() {
+	prev := registry["C15"]
+	registry["C15"] = func(c *Ctx) {
+		prev(c)
+		if c.replay != nil && c.replay.Kind != "tokcase" {
+			return
+		}
+		c.group("tokens", "tokcase", "judge_C15_tokens")
+		c.shard(100)
+		if c.replay != nil {
+			c.tokenCase(c.replay.Text, "replay")
+			return
+		}
+		root := NewRand(c.seed + 101)
+		n := c.size(200, 20000)
+		for i := 0; i < n; i++ {
+			r := root.Fork()
+			switch i % 4 {
+			case 0:
+				c.tokenCase(lexerStress(r), "stress")
+			case 1:
+				_, prog := grammarScript(r, 2)
+				c.tokenCase(renderProgram(prog, 1, r), "script")
+			default:
+				_, prog := grammarScript(r, 2)
+				text := renderProgram(prog, r.Intn(2), r)
+				text, _ = byteMutate(text, r)
+				if r.Chance(1, 2) {
+					text, _ = byteMutate(text, r)
+				}
+				c.tokenCase(text, "mutated")
 			}
 		}
 	}
